@@ -18,6 +18,9 @@ Lemma pnorm_sq q1 q2 q3 : pnorm q1 q2 q3 * pnorm q1 q2 q3 = q1 * q1 + q2 * q2 + 
 Proof. unfold pnorm. apply sqrt_sqrt. nra. Qed.
 Lemma pnorm_ge q1 q2 q3 : 0 <= pnorm q1 q2 q3.
 Proof. unfold pnorm. apply sqrt_pos. Qed.
+(* eigen () evaluates the polarization as hypot (s1, hypot (s2, s3)); over the reals that is pnorm *)
+Lemma hyp_pnorm q1 q2 q3 : sqrt (q1 * q1 + sqrt (q2 * q2 + q3 * q3) * sqrt (q2 * q2 + q3 * q3)) = pnorm q1 q2 q3.
+Proof. unfold pnorm. rewrite sqrt_sqrt by nra. f_equal. ring. Qed.
 
 (* s0 = 0, s1 < 0, off the s1 axis: d = s2 (s2/(p - s1)) + s3 (s3/(p - s1)) = p + s1 *)
 Lemma d_stable q1 q2 q3 : q1 < 0 -> ~ (q2 = 0 /\ q3 = 0) ->
